@@ -1,11 +1,11 @@
 package recovery
 
 import (
+	"bytes"
 	"encoding/json"
 	"fmt"
 	"io"
 	"slices"
-	"strings"
 
 	"reduction.dev/reduction/dkv/kv"
 	"reduction.dev/reduction/dkv/sst"
@@ -185,7 +185,7 @@ func LoadCheckpointList(fs storage.FileSystem, dataOwnership kv.DataOwnership, c
 	// the tables merged from several checkpoints must be put back in key order.
 	for levelIndex := 1; levelIndex < len(compositeCheckpointDoc.Levels); levelIndex++ {
 		slices.SortFunc(compositeCheckpointDoc.Levels[levelIndex], func(a, b sst.TableDocument) int {
-			return strings.Compare(a.StartKey, b.StartKey)
+			return bytes.Compare(a.StartKey, b.StartKey)
 		})
 	}
 
